@@ -195,6 +195,9 @@ def unshape(text, shape):
         return text.replace('r\"\"\"', '\"\"\"')
     if shape == "comment_before_doc":
         return "\n".join(ln for ln in text.split("\n") if ln.strip() != SHAPE_COMMENT)
+    if shape == "one_line":
+        import re
+        return re.sub(r"(?m)^(\s*)((?:async\s+)?def\s+\w+\(.*\).*:) return 1$", r"\1\2\n\1    return 1", text)
     return text
 
 
@@ -425,14 +428,15 @@ def check_ok(before, after, info, counterfactual=None):
     """A1-A4 plus, for a file in one of the listed lexical shapes, the causal classification of each violation:
     `shape_is_cause` names the shape iff the same text with the shape undone converts without a violation of that clause."""
     v = _check_ok(before, after, info, counterfactual)
-    shape = info.get("shape")
+    # the one listed known-bad shape this file carries: a lexical shape, else one-line definitions
+    shape = info.get("shape") or ("one_line" if info.get("one_line_names") else None)
     if v and shape and counterfactual is not None:
         plain = unshape(before, shape)
         if plain != before:
             try:
                 ast.parse(plain)
                 cf_after = counterfactual(plain)
-                cf = _check_ok(plain, cf_after, dict(info, shape=None), counterfactual)
+                cf = _check_ok(plain, cf_after, dict(info, shape=None, one_line_names=[]), counterfactual)
                 bad = {x["clause"] for x in cf}
             except (SyntaxError, ValueError, TypeError):
                 bad = {"A1", "A2", "A3", "A4"}
@@ -450,20 +454,8 @@ def _check_ok(before, after, info, counterfactual=None):
     try:
         ta = ast.parse(after)
     except SyntaxError as e:
-        # Is the one-line-definition shape (F-C07-3) the cause?  Decided by a counterfactual: the same text with
-        # every `def f(...): return 1` written on two lines must convert to something that parses.
-        culprit = False
-        if info.get("one_line_names") and counterfactual is not None:
-            import re
-            two_line = re.sub(r"(?m)^(\s*)((?:async\s+)?def\s+\w+\(.*\).*:) return 1$", r"\1\2\n\1    return 1", before)
-            if two_line != before:
-                try:
-                    ast.parse(counterfactual(two_line))
-                    culprit = True
-                except (SyntaxError, ValueError, TypeError):
-                    culprit = False
         return [{"clause": "A1", "detail": "result does not parse: %s" % e,
-                 "sig": {"what": "unparsable", "one_line_def": culprit}}]
+                 "sig": {"what": "unparsable"}}]
     ea = _erase(ast.parse(after), False)
     eb1 = _erase(ast.parse(before), False)
     eb2 = _erase(ast.parse(before), True)
